@@ -744,6 +744,20 @@ def widths_desc(big=False):
         lo, hi = (0, (1 << el[1]) - 1) if el[0] == "u" else (-(1 << (el[1] - 1)), (1 << (el[1] - 1)) - 1)
         py = dict({"x": [crng.randint(lo, hi) for _ in range(n)], "q": 5}, **({"p": (1 << pad) - 1} if pad else {}))
         jobs.append((name, py, gen.to_model(d, ("struct", name), py)))
+    # counts in front of strings and dynamic arrays that need more than 8 and more than 16 bits
+    for el, n, pad in ((("u", 8), 256, 0), (("u", 3), 300, 3), (("i", 16), 1000, 0), (("u", 1), 70000, 1)):
+        name = f"CT{k}"
+        k += 1
+        d.structs.append((name, ([("p", 0, ("u", pad))] if pad else []) + [("x", 1, ("dyn", el)), ("q", 2, ("u", 3))]))
+        lo, hi = (0, (1 << el[1]) - 1) if el[0] == "u" else (-(1 << (el[1] - 1)) + 1, (1 << (el[1] - 1)) - 1)
+        py = dict({"x": [crng.randint(lo, hi) for _ in range(n)], "q": 5}, **({"p": (1 << pad) - 1} if pad else {}))
+        jobs.append((name, py, gen.to_model(d, ("struct", name), py)))
+    for n in (255, 256, 300, 70000):
+        name = f"CT{k}"
+        k += 1
+        d.structs.append((name, [("p", 0, ("u", 5)), ("x", 1, ("str",)), ("q", 2, ("u", 3))]))
+        py = {"p": 21, "x": "".join(chr(crng.randint(32, 126)) for _ in range(n - 2)) + "\u00e9", "q": 5}
+        jobs.append((name, py, gen.to_model(d, ("struct", name), py)))
     for pad in (0, 3, 7):
         name = f"CT{k}"
         k += 1
